@@ -69,16 +69,26 @@ class PipeModelDataParallelTopology(ProcessTopology):
 
 
 class PipelineModule(nn.Module):
+    """Layers are registered under DeepSpeed-like index names chosen so
+    that one K-FAC layer name is a suffix of another ('1', '11', '21')."""
+
+    NAMES = ['1', 'a1x', '11', 'a2x', '21']
+
     def __init__(self, layers, topology):
         super().__init__()
-        self.layers = layers
+        self._order = []
+        for name, mod in zip(self.NAMES, layers):
+            self.add_module(name, mod)
+            self._order.append(name)
         self._topo = topology
 
     def topology(self):
         return self._topo
 
     def forward(self, x):
-        return self.layers(x)
+        for name in self._order:
+            x = getattr(self, name)(x)
+        return x
 
 
 def install():
@@ -164,7 +174,9 @@ class RowParallelLinear(nn.Module):
 
 # ------------------------------------------------------------------ models
 SIZES = {'gpt2l': (4, 6, 2),       # H -> H2 (column) -> H3 (row)
-         'gpt3l': (4, 6, 2, 6)}    # ... -> H4 (column, output sharded)
+         # ... -> H4 (column, output sharded); first and last layer have
+         # identical shard shapes on purpose
+         'gpt3l': (4, 6, 4, 6)}
 
 
 def full_model(name, bias, dtype=torch.float32, seed=0):
@@ -218,13 +230,17 @@ def register_ref_models():
 
     def build_model(name, dtype=torch.float32, seed=0):
         if name.startswith('gpt'):
-            return full_model(name[:5], not name.endswith('-nb'), dtype,
+            base = name.split('@')[0]
+            return full_model(base[:5], not base.endswith('-nb'), dtype,
                               seed)
         return orig_build(name, dtype, seed)
 
     def input_shape(name, batch):
         if name.startswith('gpt'):
-            return (batch, SIZES[name[:5]][0])
+            # 'gpt2l@3': (batch, seq=3, hidden) activations
+            seq = int(name.split('@')[1]) if '@' in name else 0
+            h = SIZES[name[:5]][0]
+            return (batch, seq, h) if seq else (batch, h)
         return orig_shape(name, batch)
 
     R.build_model, R.input_shape = build_model, input_shape
